@@ -1,197 +1,16 @@
 import ScenicModel.Gen.Frames
+import ScenicModel.Model.FramesCore
 /-!
-# Frames — executable model of Scenic's vector / orientation algebra and of the geometric
-specifiers and operators built on it (property C07).
+# Frames — the part of the frame model (C07) that is instantiated on data regenerated from `/repo`
 
-Everything is polymorphic in the scalar type `α` (only the operations `+ - * / neg 0 1 2` are
-assumed), so that the same functions are
-
-* *run* at `α = Rat` by the driver `Driver/C07.lean` (exact arithmetic, compared with the real code), and
-* *reasoned about* at an arbitrary field (`Props/C07*.lean`), in particular `ℝ`.
-
-Conventions mirrored from `/repo` (file, line numbers at the pinned commit):
-
-* `Vector`            — `core/vectors.py:428`            → `Vec3`
-* `Orientation`       — `core/vectors.py:207` (SciPy `Rotation`, quaternion `(x,y,z,w)`) → `Quat` and its
-  rotation matrix `Quat.toMat`; `Orientation.__mul__` is `Quat.mul` / `Mat3.mul`, `inverse` is
-  `Quat.conj` / `Mat3.transpose`, `Vector.applyRotation` is `Mat3.mulVec`.
-* angles are carried as `(cos, sin)` pairs (`Ang`); `Orientation.fromEuler(yaw,pitch,roll)` is
-  the intrinsic `ZXY` product `rotZ yaw * rotX pitch * rotY roll` (`euler`).
-* `atan2`/`hypot` results (`sphericalCoordinates`, `angleTo`, `altitudeTo`) are expressed through
-  the *witnessed* square roots `h = hypot(x,y)`, `rho = hypot(x,y,z)` supplied by the caller.
-
-The six offset formulas of `left of … below`, the `on` contact offset, the side/corner tables and a
-few structural flags come from `Gen/Frames.lean`, regenerated from `/repo` on every run.
+`Gen/Frames.lean` provides the six offset formulas of `left of … below` (`veneer.py:1784-1925`), the
+contact offsets of `directionalSpecHelper` and `On`, the scalar reading of `beyond … by D`, and the
+side / corner tables of `Object` (`object_types.py:1232-1349`). Everything else is in `FramesCore.lean`.
 -/
 namespace Scenic.Frames
 
-@[ext] structure Vec3 (α : Type) where
-  x : α
-  y : α
-  z : α
-deriving DecidableEq, Repr
-
-/-- 3×3 matrix given by its rows -/
-@[ext] structure Mat3 (α : Type) where
-  r0 : Vec3 α
-  r1 : Vec3 α
-  r2 : Vec3 α
-deriving DecidableEq, Repr
-
-/-- quaternion `w + xi + yj + zk` (SciPy stores `(x,y,z,w)`) -/
-@[ext] structure Quat (α : Type) where
-  w : α
-  x : α
-  y : α
-  z : α
-deriving DecidableEq, Repr
-
-/-- an angle, carried as `(cos, sin)` -/
-@[ext] structure Ang (α : Type) where
-  c : α
-  s : α
-deriving DecidableEq, Repr
-
-/-- `width, length, height` -/
-structure Dims (α : Type) where
-  w : α
-  l : α
-  h : α
-deriving DecidableEq, Repr
-
 section
 variable {α : Type} [Add α] [Sub α] [Mul α] [Neg α] [Div α] [OfNat α 0] [OfNat α 1] [OfNat α 2]
-
-/-! ## vectors -/
-namespace Vec3
-def zero : Vec3 α := ⟨0, 0, 0⟩
-def ex : Vec3 α := ⟨1, 0, 0⟩
-def ey : Vec3 α := ⟨0, 1, 0⟩
-def ez : Vec3 α := ⟨0, 0, 1⟩
-/-- `Vector.__add__` -/
-def add (a b : Vec3 α) : Vec3 α := ⟨a.x + b.x, a.y + b.y, a.z + b.z⟩
-/-- `Vector.__sub__` -/
-def sub (a b : Vec3 α) : Vec3 α := ⟨a.x - b.x, a.y - b.y, a.z - b.z⟩
-def neg (a : Vec3 α) : Vec3 α := ⟨-a.x, -a.y, -a.z⟩
-/-- `Vector.__mul__` (by a scalar) -/
-def smul (k : α) (a : Vec3 α) : Vec3 α := ⟨k * a.x, k * a.y, k * a.z⟩
-/-- `Vector.dot` -/
-def dot (a b : Vec3 α) : α := a.x * b.x + a.y * b.y + a.z * b.z
-def normSq (a : Vec3 α) : α := a.dot a
-def ofTriple (t : α × α × α) : Vec3 α := ⟨t.1, t.2.1, t.2.2⟩
-end Vec3
-
-/-! ## matrices -/
-namespace Mat3
-def col0 (m : Mat3 α) : Vec3 α := ⟨m.r0.x, m.r1.x, m.r2.x⟩
-def col1 (m : Mat3 α) : Vec3 α := ⟨m.r0.y, m.r1.y, m.r2.y⟩
-def col2 (m : Mat3 α) : Vec3 α := ⟨m.r0.z, m.r1.z, m.r2.z⟩
-def one : Mat3 α := ⟨⟨1, 0, 0⟩, ⟨0, 1, 0⟩, ⟨0, 0, 1⟩⟩
-/-- `Rotation.apply` / `Vector.applyRotation` -/
-def mulVec (m : Mat3 α) (v : Vec3 α) : Vec3 α := ⟨m.r0.dot v, m.r1.dot v, m.r2.dot v⟩
-def transpose (m : Mat3 α) : Mat3 α := ⟨m.col0, m.col1, m.col2⟩
-/-- composition: `(a.mul b).mulVec v = a.mulVec (b.mulVec v)` -/
-def mul (a b : Mat3 α) : Mat3 α :=
-  ⟨⟨a.r0.dot b.col0, a.r0.dot b.col1, a.r0.dot b.col2⟩,
-   ⟨a.r1.dot b.col0, a.r1.dot b.col1, a.r1.dot b.col2⟩,
-   ⟨a.r2.dot b.col0, a.r2.dot b.col1, a.r2.dot b.col2⟩⟩
-def det (m : Mat3 α) : α :=
-  m.r0.x * (m.r1.y * m.r2.z - m.r1.z * m.r2.y) - m.r0.y * (m.r1.x * m.r2.z - m.r1.z * m.r2.x)
-    + m.r0.z * (m.r1.x * m.r2.y - m.r1.y * m.r2.x)
-/-- every entry divided by `k` -/
-def sdiv (m : Mat3 α) (k : α) : Mat3 α :=
-  ⟨⟨m.r0.x / k, m.r0.y / k, m.r0.z / k⟩, ⟨m.r1.x / k, m.r1.y / k, m.r1.z / k⟩, ⟨m.r2.x / k, m.r2.y / k, m.r2.z / k⟩⟩
-/-- every entry multiplied by `k` -/
-def scale (k : α) (m : Mat3 α) : Mat3 α :=
-  ⟨⟨k * m.r0.x, k * m.r0.y, k * m.r0.z⟩, ⟨k * m.r1.x, k * m.r1.y, k * m.r1.z⟩, ⟨k * m.r2.x, k * m.r2.y, k * m.r2.z⟩⟩
-/-- a proper rotation: orthogonal (both sides) with determinant one -/
-def IsRot (m : Mat3 α) : Prop := m.mul m.transpose = one ∧ m.transpose.mul m = one ∧ m.det = 1
-end Mat3
-
-/-! ## quaternions (`Orientation.q`, `Orientation.r`) -/
-namespace Quat
-def one : Quat α := ⟨1, 0, 0, 0⟩
-/-- Hamilton product (`Rotation.__mul__`, hence `Orientation.__mul__`) -/
-def mul (a b : Quat α) : Quat α :=
-  ⟨a.w * b.w - a.x * b.x - a.y * b.y - a.z * b.z,
-   a.w * b.x + a.x * b.w + a.y * b.z - a.z * b.y,
-   a.w * b.y - a.x * b.z + a.y * b.w + a.z * b.x,
-   a.w * b.z + a.x * b.y - a.y * b.x + a.z * b.w⟩
-/-- `Rotation.inv` (`Orientation.inverse`) -/
-def conj (a : Quat α) : Quat α := ⟨a.w, -a.x, -a.y, -a.z⟩
-def normSq (a : Quat α) : α := a.w * a.w + a.x * a.x + a.y * a.y + a.z * a.z
-/-- the rotation matrix of `q` scaled by `|q|²` (polynomial in the components) -/
-def rawMat (q : Quat α) : Mat3 α :=
-  ⟨⟨q.w * q.w + q.x * q.x - q.y * q.y - q.z * q.z, 2 * (q.x * q.y - q.w * q.z), 2 * (q.x * q.z + q.w * q.y)⟩,
-   ⟨2 * (q.x * q.y + q.w * q.z), q.w * q.w - q.x * q.x + q.y * q.y - q.z * q.z, 2 * (q.y * q.z - q.w * q.x)⟩,
-   ⟨2 * (q.x * q.z - q.w * q.y), 2 * (q.y * q.z + q.w * q.x), q.w * q.w - q.x * q.x - q.y * q.y + q.z * q.z⟩⟩
-/-- the rotation matrix of a (not necessarily unit, but non-zero) quaternion — `Rotation.as_matrix` -/
-def toMat (q : Quat α) : Mat3 α := q.rawMat.sdiv q.normSq
-/-- rotation about Z by the angle whose half has `(cos : sin) = (a : b)` — `Orientation._fromHeading` -/
-def aboutZ (a b : α) : Quat α := ⟨a, 0, 0, b⟩
-def aboutX (a b : α) : Quat α := ⟨a, b, 0, 0⟩
-def aboutY (a b : α) : Quat α := ⟨a, 0, b, 0⟩
-end Quat
-
-/-! ## angles -/
-namespace Ang
-def zero : Ang α := ⟨1, 0⟩
-/-- the angle whose half-angle has `(cos : sin) = (a : b)`  (tangent half-angle parametrisation) -/
-def ofHalf (a b : α) : Ang α := ⟨(a * a - b * b) / (a * a + b * b), 2 * a * b / (a * a + b * b)⟩
-def add (p q : Ang α) : Ang α := ⟨p.c * q.c - p.s * q.s, p.s * q.c + p.c * q.s⟩
-def neg (p : Ang α) : Ang α := ⟨p.c, -p.s⟩
-def sub (p q : Ang α) : Ang α := p.add q.neg
-/-- `+ π/2` -/
-def quarter (p : Ang α) : Ang α := ⟨-p.s, p.c⟩
-def Unit (p : Ang α) : Prop := p.c * p.c + p.s * p.s = 1
-end Ang
-
-/-- rotation about the global Z axis; heading `0` maps `+Y` to `+Y`, positive = counter-clockwise -/
-def rotZ (a : Ang α) : Mat3 α := ⟨⟨a.c, -a.s, 0⟩, ⟨a.s, a.c, 0⟩, ⟨0, 0, 1⟩⟩
-def rotX (a : Ang α) : Mat3 α := ⟨⟨1, 0, 0⟩, ⟨0, a.c, -a.s⟩, ⟨0, a.s, a.c⟩⟩
-def rotY (a : Ang α) : Mat3 α := ⟨⟨a.c, 0, a.s⟩, ⟨0, 1, 0⟩, ⟨-a.s, 0, a.c⟩⟩
-
-/-- `Orientation.fromEuler(yaw, pitch, roll)`: intrinsic `ZXY` (`Rotation.from_euler("ZXY", …)`) -/
-def euler (yaw pitch roll : Ang α) : Mat3 α := (rotZ yaw).mul ((rotX pitch).mul (rotY roll))
-
-/-- `Vector.rotatedBy(angle)` (2-D rotation, `z` unchanged) -/
-def rotatedBy (v : Vec3 α) (a : Ang α) : Vec3 α := ⟨a.c * v.x - a.s * v.y, a.s * v.x + a.c * v.y, v.z⟩
-
-/-! ## points, frames, boxes -/
-
-/-- `Vector.offsetLocally(orientation, offset)` (`vectors.py:502`) -/
-def offsetLocally (p : Vec3 α) (ori : Mat3 α) (off : Vec3 α) : Vec3 α := p.add (ori.mulVec off)
-
-/-- `OrientedPoint.relativePosition(vec)` (`object_types.py:989`) -/
-def relativePosition (pos : Vec3 α) (ori : Mat3 α) (v : Vec3 α) : Vec3 α := offsetLocally pos ori v
-
-/-- coordinates of the global point `p` in the frame `(pos, ori)` (inverse of `relativePosition`
-    for a rotation `ori`); not a function of the code, used to *state* what the code achieves -/
-def localCoords (pos : Vec3 α) (ori : Mat3 α) (p : Vec3 α) : Vec3 α := ori.transpose.mulVec (p.sub pos)
-
-/-- an `OrientedPoint` as the specifier machinery sees it -/
-structure OPoint (α : Type) where
-  position : Vec3 α
-  parentOrientation : Mat3 α
-  yaw : Ang α
-  pitch : Ang α
-  roll : Ang α
-
-/-- the `orientation` property default (`object_types.py:898`):
-    `parentOrientation * Orientation.fromEuler(yaw, pitch, roll)` -/
-def OPoint.orientation (p : OPoint α) : Mat3 α := p.parentOrientation.mul (euler p.yaw p.pitch p.roll)
-
-/-- `OrientedPoint.relativize(vec)` (`object_types.py:985`):
-    `OrientedPoint._with(position=…, parentOrientation=self.orientation)` -/
-def relativize (pos : Vec3 α) (ori : Mat3 α) (v : Vec3 α) : OPoint α :=
-  ⟨relativePosition pos ori v, ori, Ang.zero, Ang.zero, Ang.zero⟩
-
-/-- `s * a` for a sign `s ∈ {-1, 0, 1}` (as written in `Vector(-self.hw, 0, self.hh)`) -/
-def signed (s : Int) (a : α) : α := if s > 0 then a else if s < 0 then -a else 0
-
-/-- the local vector `(sx·hw, sy·hl, sz·hh)` -/
-def sideVec (d : Dims α) (t : Int × Int × Int) : Vec3 α :=
-  ⟨signed t.1 (d.w / 2), signed t.2.1 (d.l / 2), signed t.2.2 (d.h / 2)⟩
 
 /-- `Object.corners` (`object_types.py:1336`), in the order of the source -/
 def corners (pos : Vec3 α) (ori : Mat3 α) (d : Dims α) : List (Vec3 α) :=
@@ -258,45 +77,8 @@ def dirOPoint (k : Dir) (refPos : Vec3 α) (refOri : Mat3 α) (self : Dims α) (
 def dirVector (k : Dir) (pos : Vec3 α) (selfOri : Mat3 α) (self : Dims α) (dist : Dist α) : Vec3 α :=
   offsetLocally pos selfOri (makeOffset k self ⟨0, 0, 0⟩ 0 (distComponents k dist))
 
-/-! ## spherical coordinates (`vectors.py:480`), azimuth / altitude (`vectors.py:522-533`) -/
-
-variable [DecidableEq α]
-
-/-- `theta = atan2(y, x) - π/2` as `(cos, sin)`; `h = hypot(x, y)` is supplied by the caller.
-    `atan2(0, 0) = 0`, hence `theta = -π/2` for a vertical vector. -/
-def azimuthOf (d : Vec3 α) (h : α) : Ang α :=
-  if h = 0 then ⟨0, -1⟩ else ⟨d.y / h, -d.x / h⟩
-
-/-- `phi = atan2(z, hypot(x, y))`; `rho = hypot(x, y, z)` supplied by the caller -/
-def altitudeOf (d : Vec3 α) (h rho : α) : Ang α :=
-  if rho = 0 then ⟨1, 0⟩ else ⟨h / rho, d.z / rho⟩
-
-/-- `Vector.angleTo` = `azimuthTo`: `normalizeAngle(atan2(dy, dx) - π/2)` -/
-def azimuthTo (a b : Vec3 α) (h : α) : Ang α := azimuthOf (b.sub a) h
-
-/-- `Vector.altitudeTo` -/
-def altitudeTo (a b : Vec3 α) (h rho : α) : Ang α := altitudeOf (b.sub a) h rho
-
-/-- square of `distance from X to Y` (`Vector.distanceTo`) -/
-def distSq (a b : Vec3 α) : α := (b.sub a).normSq
-
-/-! ## `beyond`, `offset by`, `offset along`, `on` -/
-
-/-- `beyond pos by offset from fromPt` (`veneer.py:1651`): position of the new object -/
-def beyond (pos off fromPt : Vec3 α) (h rho : α) : Vec3 α :=
-  let d := pos.sub fromPt
-  pos.add ((euler (azimuthOf d h) (altitudeOf d h rho) Ang.zero).mulVec off)
-
 /-- a scalar `D` is read as the vector `(0, D, 0)` (generated) -/
 def beyondScalar (d : α) : Vec3 α := Vec3.ofTriple (Gen.Frames.beyondScalar d)
-
-/-- `offset by v` (`veneer.py:1619`): position and parentOrientation -/
-def offsetBy (egoPos : Vec3 α) (egoOri : Mat3 α) (off : Vec3 α) : Vec3 α × Mat3 α :=
-  ((relativize egoPos egoOri off).position, egoOri)
-
-/-- `offset along H by v` (`veneer.py:1632`, `OffsetAlong` 1254) -/
-def offsetAlong (egoPos : Vec3 α) (egoOri H : Mat3 α) (off : Vec3 α) : Vec3 α × Mat3 α :=
-  (offsetLocally egoPos H off, egoOri)
 
 /-- `on`: `contactOffset = Vector(0, 0, ct/2) - baseOffset` (generated), rotated by the region's
     orientation when it has one; result is the new position -/
@@ -306,96 +88,6 @@ def onPosition (pos : Vec3 α) (ct : α) (baseOffset : Vec3 α) (regionOri : Opt
   | none => pos.add co
   | some r => pos.add (r.mulVec co)
 
-/-! ## the `facing` family (`veneer.py:2006-2161`) -/
-
-/-- `parentOrientation.localAnglesFor(target)` before Euler extraction: `parent.inverse * target` -/
-def facingLocal (parent target : Mat3 α) : Mat3 α := parent.transpose.mul target
-
-/-- the direction whose spherical angles become yaw (and pitch) in `facing [directly] toward / away from` -/
-def facingDirection (away : Bool) (parent : Mat3 α) (position target : Vec3 α) : Vec3 α :=
-  parent.transpose.mulVec (if away then position.sub target else target.sub position)
-
-/-- `apparently facing H from P`: the yaw that is specified. `usesParent` is the generated flag
-    saying whether the helper takes `parentOrientation` into account. -/
-def apparentlyFacingYaw (usesParent : Bool) (parent : Mat3 α) (position fromPt : Vec3 α) (heading : Ang α)
-    (h : α) : Ang α :=
-  if usesParent then (azimuthOf (parent.transpose.mulVec (position.sub fromPt)) h).add heading
-  else (azimuthTo fromPt position h).add heading
-
-/-! ## operators (`veneer.py:1143-1466`) -/
-
-/-- `relative heading of X from Y` on yaw angles: `normalizeAngle(X.yaw - Y.yaw)` -/
-def relativeHeading (x y : Ang α) : Ang α := x.sub y
-
-/-- `apparentHeadingAtPoint(point, heading, base)` (`geometry.py:92`):
-    `heading + π/2 - atan2(oy - y, ox - x)`; `h = hypot(ox - x, oy - y)` -/
-def apparentHeading (point : Vec3 α) (heading : Ang α) (base : Vec3 α) (h : α) : Ang α :=
-  let dx := point.x - base.x
-  let dy := point.y - base.y
-  if h = 0 then heading.quarter else heading.add ⟨dy / h, dx / h⟩
-
-/-- `OrientedPoint.distancePast(vec)`: `(position - vec).rotatedBy(-heading).y` -/
-def distancePast (pos : Vec3 α) (heading : Ang α) (v : Vec3 α) : α :=
-  (rotatedBy (pos.sub v) heading.neg).y
-
-/-- the yaw of a rotation matrix (`Orientation.yaw`, SciPy `as_euler("ZXY")[0]`) away from gimbal
-    lock: `atan2(-m01, m11)`; `cp = hypot(m01, m11)` (the cosine of the pitch) supplied by the caller -/
-def yawOf (m : Mat3 α) (cp : α) : Ang α := ⟨m.r1.y / cp, -m.r0.y / cp⟩
-def pitchOf (m : Mat3 α) (cp : α) : Ang α := ⟨cp, m.r2.y⟩
-def rollOf (m : Mat3 α) (cp : α) : Ang α := ⟨m.r2.z / cp, -m.r2.x / cp⟩
-
-/-- kinds of argument of the polymorphic `relative to` (vector fields are not modelled) -/
-inductive Arg (α : Type)
-  | vec (v : Vec3 α)
-  | heading (a : Ang α)
-  | orient (m : Mat3 α)
-  /-- an `OrientedPoint`/`Object`: position, global orientation, global heading -/
-  | opoint (pos : Vec3 α) (ori : Mat3 α) (heading : Ang α)
-
-inductive RelResult (α : Type)
-  | vec (v : Vec3 α)
-  | heading (a : Ang α)
-  | orient (m : Mat3 α)
-  /-- a new `OrientedPoint`: position and parentOrientation (yaw = pitch = roll = 0) -/
-  | opoint (pos : Vec3 α) (parent : Mat3 α)
-  | typeError
-
-/-- `RelativeTo(X, Y)` (`veneer.py:1154`), dispatch order as in the source. A plain number is
-    *both* a known heading and a known orientation; the orientation branch comes first. -/
-def relativeTo (x y : Arg α) : RelResult α :=
-  match x, y with
-  | .opoint _ _ _, .opoint _ _ _ => .typeError
-  | .opoint _ _ hd, .heading a => .heading (hd.add a)
-  | .heading a, .opoint _ _ hd => .heading (hd.add a)
-  -- `toOrientation(Y) * toOrientation(X)`
-  | .opoint _ ox _, .orient m => .orient (m.mul ox)
-  | .orient m, .opoint _ oy _ => .orient (oy.mul m)
-  | .opoint p o _, .vec v => .opoint (relativePosition p o v) o
-  | .vec v, .opoint p o _ => .opoint (relativePosition p o v) o
-  | .orient a, .orient b => .orient (b.mul a)
-  | .orient a, .heading b => .orient ((rotZ b).mul a)
-  | .heading a, .orient b => .orient (b.mul (rotZ a))
-  | .heading a, .heading b => .orient ((rotZ b).mul (rotZ a))
-  | .vec a, .vec b => .vec (a.add b)
-  | .vec _, _ => .typeError
-  | _, .vec _ => .typeError
-
-/-! ## `following F [from P] for D` (`vectors.py:706`): forward Euler -/
-
-/-- `n` forward-Euler steps of length `step` along the field's local `+Y` -/
-def followSteps (field : Vec3 α → Mat3 α) (step : α) : Nat → Vec3 α → Vec3 α
-  | 0, p => p
-  | n + 1, p => followSteps field step n (p.add ((field p).mulVec ⟨0, step, 0⟩))
-
-/-- `Following`: position and parentOrientation (`field[pos]`) -/
-def following (field : Vec3 α → Mat3 α) (step : α) (n : Nat) (p : Vec3 α) : Vec3 α × Mat3 α :=
-  let q := followSteps field step n p
-  (q, field q)
-
 end
-
-/-- number of steps taken by `followFrom`: `max(minSteps, ceil(dist / defaultStepSize))` -/
-def followNumSteps (minSteps : Nat) (dist stepSize : Rat) : Nat :=
-  max minSteps (dist / stepSize).ceil.toNat
 
 end Scenic.Frames
